@@ -46,6 +46,8 @@ class Builder:
         self.p = p
         self.cache = {}
         self.stack = []
+        self.nocase_tags = []       # (keyword, where) matched with nom's tag_no_case (character pairing + byte length)
+        self.exact_keywords = []    # (keyword, where) matched by verify(take(n), |s| s.eq_ignore_ascii_case(keyword))
 
     # ---- operands -------------------------------------------------------------------------
     def operand(self, env, o, body):
@@ -142,6 +144,123 @@ class Builder:
         self.cache[fn] = root
         return root
 
+    def ascii_nocase_predicate(self, fnv, body):
+        """fnv is the closure |s| s.eq_ignore_ascii_case(W) with a captured literal W: return W, else None.  Decided on the
+        closure's MIR: its result is the result of one call of str::eq_ignore_ascii_case on (argument, captured word)."""
+        if not (isinstance(fnv, tuple) and fnv[0] == "closure"):
+            return None
+        cb = self.p.bodies.get(fnv[1])
+        caps = fnv[2] if len(fnv) > 2 else []
+        if cb is None:
+            return None
+        env = {}
+        bb = 0
+        result_of = None
+        for _ in range(50):
+            blk = cb.blocks[bb]
+            for s_ in blk["s"]:
+                if s_["k"] != "assign" or s_["p"]["p"]:
+                    continue
+                r = s_["r"]
+                if r["k"] in ("use", "cast"):
+                    o = r["o"]
+                    if "k" in o:
+                        env[s_["p"]["l"]] = ("const",)
+                        continue
+                    pl = o.get("m") or o.get("c")
+                    v = env.get(pl["l"], ("arg", pl["l"]) if pl["l"] in (1, 2) else None)
+                    for pr in pl["p"]:
+                        if pr == "*":
+                            continue
+                        if isinstance(pr, dict) and "f" in pr and v == ("arg", 1):
+                            v = ("cap", pr["f"])
+                        else:
+                            v = None
+                    env[s_["p"]["l"]] = v
+                elif r["k"] == "ref":
+                    pl = r["p"]
+                    v = env.get(pl["l"], ("arg", pl["l"]) if pl["l"] in (1, 2) else None)
+                    for pr in pl["p"]:
+                        if pr == "*":
+                            continue
+                        if isinstance(pr, dict) and "f" in pr and v == ("arg", 1):
+                            v = ("cap", pr["f"])
+                        else:
+                            v = None
+                    env[s_["p"]["l"]] = v
+                else:
+                    env[s_["p"]["l"]] = None
+            t = blk["t"]
+            if t["k"] in ("goto", "drop"):
+                bb = t["t"]
+                continue
+            if t["k"] == "ret":
+                break
+            if t["k"] != "call":
+                return None
+            d = t["f"].get("def")
+            if d != "core::str::<impl str>::eq_ignore_ascii_case" or result_of is not None:
+                return None
+            a = []
+            for o in t["args"]:
+                pl = o.get("m") or o.get("c")
+                if pl is None:
+                    return None
+                v = env.get(pl["l"], ("arg", pl["l"]) if pl["l"] in (1, 2) else None)
+                for pr in pl["p"]:
+                    if pr == "*":
+                        continue
+                    if isinstance(pr, dict) and "f" in pr and v == ("arg", 1):
+                        v = ("cap", pr["f"])
+                    else:
+                        v = None
+                a.append(v)
+            if t["dest"]["l"] != 0 or t["dest"]["p"]:
+                return None
+            result_of = a
+            bb = t["t"]
+        if not result_of or len(result_of) != 2:
+            return None
+        kinds = sorted(x[0] if x else "?" for x in result_of)
+        if kinds != ["arg", "cap"]:
+            return None
+        cap = [x for x in result_of if x[0] == "cap"][0][1]
+        if ("arg", 2) not in result_of or cap >= len(caps):
+            return None
+        cv = caps[cap]
+        return cv[1] if isinstance(cv, tuple) and cv[0] == "str" else None
+
+    def factory(self, fn, args):
+        """evaluate a local combinator-building function on constant arguments"""
+        if fn in self.stack:
+            raise AnchorMissing("nom reconstruction: recursive factory %s" % fn)
+        self.stack.append(fn)
+        body = self.p.need_body(fn)
+        env = {i + 1: a for i, a in enumerate(args)}
+        bb = 0
+        for _ in range(200):
+            blk = body.blocks[bb]
+            for s_ in blk["s"]:
+                if s_["k"] != "assign":
+                    continue
+                if s_["p"]["p"]:
+                    raise AnchorMissing("nom reconstruction: projected assignment in %s" % fn)
+                env[s_["p"]["l"]] = self.rvalue(env, s_["r"], body)
+            t = blk["t"]
+            if t["k"] in ("goto", "drop"):
+                bb = t["t"]
+                continue
+            if t["k"] == "ret":
+                self.stack.pop()
+                return self.as_node(env.get(0), body)
+            if t["k"] != "call":
+                raise AnchorMissing("nom reconstruction: terminator %s in factory %s" % (t["k"], fn))
+            d = t["f"].get("def")
+            cargs = [self.operand(env, a, body) for a in t["args"]]
+            env[t["dest"]["l"]] = self.call(d, t["f"], cargs, body, t.get("ln"))
+            bb = t["t"]
+        raise AnchorMissing("nom reconstruction: factory %s too long" % fn)
+
     def resolve(self, n):
         if n.kind == "ref":
             return Node("rule", [self.build(n.arg)], arg=n.arg)
@@ -162,7 +281,7 @@ class Builder:
             if r["ak"] == "tuple":
                 return ("tuple", [self.operand(env, f, body) for f in r["fields"]])
             if r["ak"] == "closure":
-                return ("closure", r["name"])
+                return ("closure", r["name"], [self.operand(env, f, body) for f in r["fields"]])
             if r["ak"] == "adt":
                 return ("adt", r["variant"], [self.operand(env, f, body) for f in r["fields"]], r["name"])
         if k == "cast":
@@ -175,7 +294,26 @@ class Builder:
                  "nom::bytes::streaming::tag", "nom::bytes::streaming::tag_no_case"):
             if not (args and args[0][0] == "str"):
                 raise AnchorMissing("tag with a non-literal argument in %s" % body.path)
+            if d.endswith("no_case"):
+                self.nocase_tags.append((args[0][1], w))
             return Node("lit", arg=(args[0][1], d.endswith("no_case")), where=w)
+        if d == "core::str::<impl str>::len" and args and args[0][0] == "str":
+            return ("int", len(args[0][1].encode("utf-8")), "usize")
+        if d in ("nom::bytes::complete::take", "nom::bytes::streaming::take"):
+            if not (args and args[0][0] == "int"):
+                raise AnchorMissing("take with a non-constant count in %s" % body.path)
+            return Node("take", arg=args[0][1], where=w)
+        if d == "nom::combinator::verify":
+            inner = self.as_node(args[0], body)
+            word = self.ascii_nocase_predicate(args[1], body)
+            if inner.kind == "take" and word is not None and word.isascii() and inner.arg == len(word):
+                # exactly `inner.arg` characters that equal the keyword up to ASCII case: the case variants of the keyword
+                self.exact_keywords.append((word, w))
+                return Node("lit", arg=(word, True), where=w)
+            raise AnchorMissing("nom reconstruction: verify(%r, ..) is not a recognised keyword matcher in %s" % (inner, body.path))
+        if d in self.p.bodies and d.startswith("B::tui::input::parser::"):
+            # a local function that builds a combinator from constants (not applied to the input here)
+            return self.factory(d, args)
         if d == "nom::bytes::complete::is_a":
             return Node("is_a", arg=args[0][1], where=w)
         if d in LEAF_FNS:
